@@ -27,7 +27,8 @@ ASSUMPTIONS = [
 ]
 URL = "file:///zcv/main.conf"
 EXTRA_SHAPES = ["k a$$b", "k $$", "k (x", "K v2", "k v", "%import q$$", "<a/ >", "<a n/ >",
-                "</a/>", "<B N>", "</B>", "%import p"]
+                "</a/>", "<B N>", "</B>", "%import p", "<a//>", "<a n//>",
+                "k a\u2028b", "k a\x0cb\x85c", "k a\rb"]
 
 
 def _mods():
